@@ -31,6 +31,7 @@ import (
 	"net"
 	"net/netip"
 	"os"
+	"runtime"
 	"sort"
 	"strconv"
 	"sync"
@@ -71,6 +72,7 @@ type ping struct {
 	id      int // identifier seen on the wire (or leaked), -1 unknown (guarded by driver.mu)
 	ret     bool
 	inline  string        // kind of the message handed to Parse from inside the connection's WriteTo ("" = none)
+	slow    time.Duration // the send hangs this long inside WriteTo and then succeeds
 	release chan struct{} // fail == "blockfail": the send hangs inside WriteTo until this is closed, then fails
 	freed   bool
 }
@@ -99,6 +101,8 @@ type driver struct {
 }
 
 const margin = 25 * time.Millisecond
+
+var defaultProcs = runtime.GOMAXPROCS(0)
 
 func (d *driver) log(rec map[string]interface{}) {
 	// caller holds d.mu
@@ -265,6 +269,7 @@ func (d *driver) beforeWrite(frame []byte) error {
 	}
 	d.mu.Lock()
 	var hit *ping
+	var slow time.Duration
 	for _, p := range d.pings {
 		if p.fail == "blockfail" && p.fam == fam && d.dst(p, fam).IP == dip {
 			hit = p
@@ -272,8 +277,14 @@ func (d *driver) beforeWrite(frame []byte) error {
 				p.id = id
 			}
 		}
+		if p.slow > 0 && p.fam == fam && d.dst(p, fam).IP == dip {
+			slow, p.slow = p.slow, 0
+		}
 	}
 	d.mu.Unlock()
+	if slow > 0 {
+		time.Sleep(slow) // a send that takes longer than the ping's timeout
+	}
 	if hit == nil {
 		return nil
 	}
@@ -345,6 +356,44 @@ func decodeEcho(f []byte) (fam string, dst netip.Addr, typ uint8, id int, ok boo
 	return
 }
 
+// replyVariant4 rewrites the IPv4 header of an Ethernet/IPv4/ICMP frame (flags, TOS, TTL, options, padding) and
+// fixes the header checksum; the ICMP message is untouched.
+func replyVariant4(f []byte, sub string) []byte {
+	ip := f[14:]
+	fix := func(ip []byte) {
+		ihl := int(ip[0]&0x0f) * 4
+		ip[10], ip[11] = 0, 0
+		binary.BigEndian.PutUint16(ip[10:12], vh.Cksum(ip[:ihl]))
+	}
+	if sub == "df" || sub == "df+opts" {
+		ip[6] |= 0x40 // Don't Fragment
+	}
+	switch sub {
+	case "rsv":
+		ip[6] |= 0x80 // reserved bit ("evil bit")
+	case "tos":
+		ip[1] = 0xb8
+	case "ttl1":
+		ip[8] = 1
+	case "pad": // Ethernet padding after the IP datagram
+		fix(ip)
+		return append(f, make([]byte, 11)...)
+	}
+	if sub == "opts" || sub == "df+opts" { // IHL 6: one word of options (NOP NOP NOP EOL)
+		out := make([]byte, 0, len(f)+4)
+		out = append(out, f[:14+20]...)
+		out = append(out, 1, 1, 1, 0)
+		out = append(out, f[14+20:]...)
+		ip = out[14:]
+		ip[0] = 0x46
+		binary.BigEndian.PutUint16(ip[2:4], uint16(len(ip)))
+		fix(ip)
+		return out
+	}
+	fix(ip)
+	return f
+}
+
 var malformedSubs = []string{"short4", "short6", "iplen4", "iplen6", "proto4", "type129in4", "type0in6", "tstamp4", "short4b"}
 
 // message builds the frame of one injected ICMP message.
@@ -366,9 +415,23 @@ func (d *driver) message(kind, sub string, id uint16, from *ping) (frame []byte,
 	}
 	switch kind {
 	case "echoReply4":
-		return v4(0, echo), ""
+		// a complete echo reply is one whatever its IPv4 header looks like: header variations a sender's stack may produce
+		if sub == "" {
+			sub = []string{"", "", "df", "rsv", "tos", "ttl1", "opts", "pad", "df+opts"}[d.rng.Intn(9)]
+		}
+		return replyVariant4(v4(0, echo), sub), sub
 	case "echoReply6":
-		return v6(129, echo), ""
+		if sub == "" {
+			sub = []string{"", "", "tcflow", "hop1"}[d.rng.Intn(4)]
+		}
+		b := v6(129, echo)
+		switch sub {
+		case "tcflow": // traffic class 0xb8, flow label 0x12345
+			b[14], b[15], b[16], b[17] = 0x6b, 0x81, 0x23, 0x45
+		case "hop1":
+			b[14+7] = 1
+		}
+		return b, sub
 	case "echoRequest":
 		if sub == "" {
 			sub = []string{"req4", "req6"}[d.rng.Intn(2)]
@@ -575,6 +638,9 @@ func (d *driver) behaviour(bid int, want int, evs []action) bool {
 					p.timeout = d.slot / 2
 				}
 				p.timeout = p.timeout.Truncate(time.Millisecond)
+				if g.i("slow") == 1 {
+					p.slow = p.timeout + 30*time.Millisecond
+				}
 				d.mu.Lock()
 				d.pings[name] = p
 				d.log(map[string]interface{}{"a": "start", "p": name, "fam": p.fam, "to": int(p.timeout / time.Millisecond), "fail": p.fail, "burst": len(group), "inline": p.inline})
@@ -713,6 +779,11 @@ func main() {
 			want = -1
 			if _, has := a["next"]; has {
 				want = a.i("next")
+			}
+			if a.i("procs") > 0 { // scheduler width for this behaviour (sync.Pool and timer effects depend on it)
+				runtime.GOMAXPROCS(a.i("procs"))
+			} else {
+				runtime.GOMAXPROCS(defaultProcs)
 			}
 			continue
 		}
